@@ -137,6 +137,11 @@ let dispatch (cmd : string) (args : sx list) : sx =
       let w_out = function OValue v -> L [A "value"; w_nat v] | ORaise v -> L [A "raise"; w_nat v] | OTimeout -> A "timeout" in
       let p = { p_dur = nat_ dur; p_res = res_ res; p_swallow = bool_ sw } in
       w_list w_out (allowed p (nat_ dur) (nat_ limit) (nat_ tol))
+  | "same_graph", [a; b] ->
+      let sg_ x = match lst x with
+        | [n; e; st; c] -> { g_nodes = list_ n_ n; g_edges = list_ n_ e; g_start = list_ n_ st; g_cons = list_ n_ c }
+        | _ -> failwith "sgraph" in
+      w_bool (same_graph (sg_ a) (sg_ b))
   | _ -> Dispatch2.dispatch cmd args
 
 let () =
